@@ -9,7 +9,8 @@ THEOREMS = {
     "C02": ("TrVerif.Props.C02", ["Tr.C02_partial", "Tr.C02_times", "Tr.C02_arrival", "Tr.C02_first_wait", "Tr.stepsOfLegs_transfer", "Tr.bestEgress_spec"]),
     "C06": ("TrVerif.Props.C06", ["Tr.C06_totals", "Tr.C06_route"]),
     "C07": ("TrVerif.Props.C07", ["Tr.C07_route_strings", "Tr.C07_accessibility_strings", "Tr.C07_enum_order", "Tr.C07_access"]),
-    "C08": ("TrVerif.Props.C08", ["Tr.C08_sound", "Tr.forwardNode_sound", "Tr.fwdScanList_inv", "Tr.fwdStep_inv", "Tr.init_FInv"]),
+    # module NonVacuity imports C08 (and C02, C09): a concrete dataset meeting the hypotheses of C01/C02/C06/C08/C09 on which all four calculations succeed
+    "C08": ("TrVerif.Props.NonVacuity", ["Tr.C08_sound", "Tr.forwardNode_sound", "Tr.fwdScanList_inv", "Tr.fwdStep_inv", "Tr.init_FInv", "Tr.nv_hypotheses", "Tr.nv_results"]),
     "C09": ("TrVerif.Props.C09", ["Tr.C09_sound", "Tr.reverseNode_sound", "Tr.collectNodes_sorted", "Tr.collectNodes_mem"]),
     "C10": ("TrVerif.Props.C10", ["Tr.C10_alternatives"]),
     "C11": ("TrVerif.Props.C11", ["Tr.C11_connSet", "Tr.C11_restrict", "Tr.C11_answers", "Tr.C11_route"]),
